@@ -108,7 +108,12 @@ def gen(seed, tier, want=None):
                         scen.append(Scenario(name, disp, setup, acts, [P] * i + [Q] * 70 + [P] * j + [R] * 70 + [P] * 70))
                         scen.append(Scenario(name, disp, setup, acts, [P] * i + [Q] * j + [P] * 70 + [R] * 70 + [Q] * 70))
                 # late split points of P (the tail of a call: unlock and whatever follows it) against an early pause of Q
-                if acts[P][0] != 1:
+                if acts[P][0] != 1 and acts[Q][0] != 1:
+                    # (two calls and a delivery: every pause point of the second call against every late split of the first)
+                    for i in range(imax + 1, 34):
+                        for j in range(0, 22):
+                            scen.append(Scenario(name, disp, setup, acts, [P] * i + [Q] * j + [P] * 70 + [R] * 70 + [Q] * 70))
+                elif acts[P][0] != 1:
                     for i in range(imax + 1, 34):
                         for j in range(0, jmax + 5, 2):
                             scen.append(Scenario(name, disp, setup, acts, [P] * i + [Q] * j + [P] * 70 + [R] * 70 + [Q] * 70))
